@@ -12,6 +12,17 @@ RULE = ("well-formed operation histories (push of a non-queued item, pop, change
         "merge/find histories over small value sets. A history is non-trivial if it contains a pop of a queue "
         "with >= 2 entries or a change_score (PQ), or a merge joining two multi-element classes or a find after "
         "a merge (UF); distinct = distinct op sequence")
+MANIFEST = dict(
+    text="Lean 4 theorems about an exact model of the binary heap (with its position map) and of the union-find: "
+         "every history refines the abstract priority map / partition; the model is tied to the working tree by "
+         "running identical histories through the real PriorityQueue/ComponentFinder and the compiled model "
+         "(equal outputs) and by an independent abstract-spec oracle on the implementation's outputs",
+    design_ref="DESIGN.md §5 C18",
+    note="trusted: Lean kernel, axioms ⊆ {propext, Classical.choice, Quot.sound}; the hand-written model "
+         "(correspondence is differential testing: quick 9 000 random histories, thorough +exhaustive small spaces); "
+         "misuse histories (duplicate push, change_score of absent item) are outside the contract",
+    technique="Lean 4 refinement proof (heap ⊑ priority map, union-find = min of class) + differential correspondence",
+)
 ASSUMPTIONS = ["misuse (duplicate push, change_score of an absent item) is outside the class contract and is never "
                "sent to the implementation (it corrupts memory there); the model answers `misuse`"]
 
